@@ -135,8 +135,10 @@ class TextualDataType(BaseDataType):
                 (encoding_chars['REPETITION'], '{esc}R{esc}'.format(esc=escape_char)),)
 
     def _get_escape_char_regex(self, escape_char):
-        # matches the escape sequences that can already be in the value
-        return r'(%s[HNFSTRE]%s)' % tuple(2 * [re.escape(escape_char)])
+        # matches the escape sequences that can already be in the value: the single letter ones, hexadecimal
+        # data (X0D), locally defined (Zxx), character set switches (Cxxyy, Mxxyyzz) and formatting commands (.br)
+        return r'(%s(?:[HNFSTRE]|X(?:[0-9A-Fa-f]{2})+|Z[0-9A-Za-z]+|C[0-9A-Fa-f]{4}|M[0-9A-Fa-f]{4}(?:[0-9A-Fa-f]{2})?' \
+               r'|\.[0-9A-Za-z]+)%s)' % tuple(2 * [re.escape(escape_char)])
 
     def _escape_value(self, value, encoding_chars=None):
         escape_char = encoding_chars['ESCAPE']
@@ -174,7 +176,9 @@ class TextualDataType(BaseDataType):
         # right: the text between two escape sequences is escaped, the escape char first and then the
         # encoding chars, whose escape sequences must not be escaped again.
         parts = re.split(self._get_escape_char_regex(escape_char), value)
-        for i in range(0, len(parts), 2):
+        for i in range(len(parts)):
+            if i % 2 == 1 and not any(char in parts[i] for char, esc_seq in translations):
+                continue  # an escape sequence (unless it contains an encoding char, e.g. /.br/ when . is one)
             text = parts[i].replace(escape_char, '{esc}E{esc}'.format(esc=escape_char))
             for char, esc_seq in translations:
                 text = text.replace(char, esc_seq)
